@@ -286,23 +286,190 @@ def s_pack(vc):
         vc.ensure("wellformed.is_bytes", isa(out.result, bytes))
 
 
-@scenario("name.roundtrip", functions=[DN + "pack", DN + "unpack", DN + "unpack_from", DN + "_unpack_label_into"], max_unroll=4)
-def s_roundtrip(vc):
-    """unpack(pack(n)) == n for IDNA-canonical names (every label l has dec_idna(enc_idna(l)) == l), <= 3 labels."""
-    k = vc.case("labels", [0, 1, 2, 3])
-    ls, name = mk_name(vc, k)
-    for l in ls:
-        e = idna_enc(vc, l)
-        vc.assume(len_(l) > 0)
-        vc.assume(idna_enc_ok(vc, l))
-        vc.assume(And(len_(e) > 0, len_(e) < 64))
-        vc.assume(idna_status(vc, e) == 0)
-        vc.assume(idna_dec(vc, e) == l)
-    o1 = vc.call(DN + "pack", name)
-    vc.ensure("pack.ok", o1.ok)
-    if not o1.ok:
+@scenario("label.roundtrip", functions=[DN + "_unpack_label_into"])
+def s_label_roundtrip(vc):
+    """Reading back an encoded label: for an IDNA-canonical label l (e = enc_idna(l), 0 < |e| < 64, dec_idna(e) == l) the
+    bytes `|e| e` placed anywhere in a buffer are read as exactly l and consumed exactly. With `name.pack` (a packed name is
+    the concatenation of `|e_i| e_i` and a zero octet) and `name.unpack_from.loop` (labels are read at consecutive offsets
+    until the zero octet) this gives unpack(pack(n)) == n by induction on the number of labels."""
+    l = vc.sym_str("l")
+    e = idna_enc(vc, l)
+    vc.assume(idna_enc_ok(vc, l))
+    vc.assume(And(len_(e) > 0, len_(e) < 64))
+    vc.assume(idna_status(vc, e) == 0)
+    vc.assume(idna_dec(vc, e) == l)
+    pre = vc.sym_bytes("pre")
+    rest = vc.sym_bytes("rest")
+    buf = pre + from_codes([len_(e) % 256]) + e + rest
+    labels = vc.list([])
+    out = vc.call(DN + "_unpack_label_into", labels, buf, len_(pre))
+    vc.ensure("ok", out.ok)
+    if out.ok:
+        vc.ensure("consumed_exactly", out.result == 1 + len_(e))
+        vc.ensure("one_label", len_(labels) == 1)
+        if len_(labels) == 1:
+            vc.ensure("same_label", labels[0] == l)
+
+
+@scenario("name.roundtrip.root", functions=[DN + "pack", DN + "unpack", DN + "unpack_from", DN + "_unpack_label_into"])
+def s_root_roundtrip(vc):
+    o1 = vc.call(DN + "pack", "")
+    vc.ensure("pack.ok", o1.ok and vc.eq(o1.result, b"\x00"))
+    o2 = vc.call(DN + "unpack", b"\x00")
+    vc.ensure("unpack.ok", o2.ok and vc.eq(o2.result, ""))
+
+
+@scenario("name.reencode.label", functions=[DN + "pack"])
+def s_reencode_label(vc):
+    """A decoded message must re-encode to bytes that decode to the same message: the text t of ONE wire label, used as a
+    (single-label) name, must be packed as one label again. Known finding: text containing '.' is split into several labels
+    (or refused with ValueError 'empty labels' for '.', 'a.', '.a')."""
+    t = vc.sym_str("t")
+    vc.assume(len_(t) > 0)
+    K = vc.branch(contains(t, "."))
+    if vc.mode == "sym":
+        if K:
+            vc.assume(False)  # inside the recorded class: not explored symbolically (witness replayed natively)
+        from pyvc import libx_dns
+        libx_dns.assume_sep_free(vc, t, ".")
+    out = vc.call(DN + "pack", t)
+    if vc.branch(Not(idna_enc_ok(vc, t))):
         return
-    o2 = vc.call(DN + "unpack", o1.result)
-    vc.ensure("unpack.ok", o2.ok)
-    if o2.ok:
-        vc.ensure("same_name", o2.result == name)
+    e = idna_enc(vc, t)
+    if vc.branch(Or(len_(e) == 0, len_(e) >= 64)):
+        return
+    vc.ensure_kf("single_label.accepted", out.ok, "KF-C25-2", K)
+    if out.ok:
+        vc.ensure_kf("single_label.bytes", out.result == from_codes([len_(e)]) + e + b"\x00", "KF-C25-2", K)
+
+
+# ---- compressed names (RFC 1035 §4.1.4)
+
+def call_top_real(vc, ref, rec_summary, *args):
+    """vc.call(ref, *args) where *recursive* calls of ref are replaced by rec_summary (the callee's contract) but the
+    outermost activation runs the real code."""
+    from pyvc.vc import resolve_ref
+    state = {"depth": 0}
+    orig = resolve_ref(ref)[2] if vc.mode == "native" else None
+
+    def wrapper(v, *a, **k):
+        if state["depth"] > 0:
+            return rec_summary(v, *a, **k)
+        state["depth"] = 1
+        try:
+            if v.mode == "native":
+                return orig(*a, **k)
+            from pyvc import interp as I
+            f = v._ifunc(ref)
+            I.SRC.note_used(f.module, f.qualname, f.node)
+            return v.it.run_body(f, v.it.bind_args(f, list(a), k), None, None)
+        finally:
+            state["depth"] = 0
+
+    vc.summary(ref, wrapper)
+    return vc.call(ref, *args)
+
+
+def dict_items(vc, d):
+    return list(d.items) if vc.mode == "sym" else list(d.items())
+
+
+def dict_lookup(vc, d, key):
+    """(found, value) with found a bool/SBool; value of the first matching entry (contract-side, no forking)"""
+    found, val = False, None
+    for k, v in dict_items(vc, d):
+        if vc.branch(k == key):
+            return True, v
+    return False, None
+
+
+@scenario("name.compressed.activation", functions=[DN + "unpack_from_with_compression"], max_unroll=4)
+def s_compressed(vc):
+    """One activation of the compressed-name reader, label reader and recursive call abstracted by their contracts.
+    RFC 1035 §4.1.4: a name is labels ending in a zero octet, a pointer, or labels ending in a pointer (2 octets, top bits
+    11, 14-bit offset). Termination on pointer loops: an offset that is being read is marked in the cache before any
+    recursive call, at most one recursive call is made per activation, and re-entering a marked offset is a parse error
+    without further recursion — so the recursion depth is bounded by the number of distinct offsets (<= 2^14 + 1)."""
+    buf = vc.sym_bytes("buf")
+    off = vc.sym_int("off", lo=0)
+    shape = vc.case("cache", ["empty", "other_entry", "in_progress", "done"])
+    k0 = vc.sym_int("k0", lo=0)
+    memo_name, memo_len = vc.sym_str("memo_name"), vc.sym_int("memo_len")
+    memo = (memo_name, memo_len) if vc.mode == "native" else STuple([memo_name, memo_len])
+    if shape == "empty":
+        entries = []
+    elif shape == "other_entry":
+        vc.assume(k0 != off)
+        entries = [(k0, None)]
+    elif shape == "in_progress":
+        entries = [(off, None)]
+    else:
+        entries = [(off, memo)]
+    cache = vc.dict(entries)
+    log = StepLog()
+    vc.summary(DN + "_unpack_label_into", log)
+    rec_calls = []
+    rec_fails = vc.sym_bool("rec_fails")
+    rec_name, rec_len = vc.sym_str("rec_name"), vc.sym_int("rec_len", lo=0)
+
+    def rec(v, buffer, target, c):
+        marked = dict_lookup(v, c, off)
+        rec_calls.append(dict(buffer=buffer, target=target, cache=c, marked=marked))
+        if v.branch(rec_fails):
+            raise_(v, SE())
+        return (rec_name, rec_len) if v.mode == "native" else STuple([rec_name, rec_len])
+
+    out = call_top_real(vc, DN + "unpack_from_with_compression", rec, buf, off, cache)
+    vc.ensure("total.only_parse_error", Or(out.ok, raised_is(out, SE())))
+    if shape == "in_progress":
+        vc.ensure("loop.detected_as_parse_error", raised_is(out, SE()))
+        vc.ensure("loop.no_further_recursion", len(rec_calls) == 0 and len(log.calls) == 0)
+        return
+    if shape == "done":
+        vc.ensure("memo.ok", out.ok)
+        if out.ok:
+            vc.ensure("memo.result", And(out.result[0] == memo_name, out.result[1] == memo_len))
+        vc.ensure("memo.no_reading", len(rec_calls) == 0 and len(log.calls) == 0)
+        return
+    pos, labs = check_label_loop(vc, log, out.ok, buf, off)
+    last = log.calls[-1]["outcome"] if log.calls else None
+    vc.ensure("recursion.at_most_once", len(rec_calls) <= 1)
+    for r in rec_calls:
+        found, val = r["marked"]
+        vc.ensure("recursion.offset_marked_in_progress_before", found is True and isnone(val))
+        vc.ensure("recursion.same_buffer_and_cache", r["buffer"] is buf and r["cache"] is cache)
+        vc.ensure("recursion.target_in_14_bits", And(r["target"] >= 0, r["target"] < 16384))
+    if last == "end":
+        vc.ensure("plain.no_recursion", len(rec_calls) == 0)
+        vc.ensure("plain.ok", out.ok)
+        if out.ok:
+            vc.ensure("plain.name", out.result[0] == join_dots(labs))
+            vc.ensure("plain.length", out.result[1] == pos - off)
+    elif last == "raise":
+        vc.ensure("bad_label.parse_error", raised_is(out, SE()))
+        vc.ensure("bad_label.no_recursion", len(rec_calls) == 0)
+    else:
+        # the label run stopped at pos without a terminator: must be a complete pointer, else a parse error
+        L = len_(buf)
+        if vc.branch(And(pos + 1 < L, code_or(buf, pos) >= 192)):
+            vc.ensure("pointer.followed_once", len(rec_calls) == 1)
+            if len(rec_calls) == 1:
+                vc.ensure("pointer.target", rec_calls[0]["target"] == (code_or(buf, pos) - 192) * 256 + code_or(buf, pos + 1))
+                if vc.branch(rec_fails):
+                    vc.ensure("pointer.error_propagates", raised_is(out, SE()))
+                else:
+                    vc.ensure("pointer.ok", out.ok)
+                    if out.ok:
+                        # labels read here followed by the labels of the target name; an empty target name (root) adds none
+                        exp = If(len_(rec_name) == 0, join_dots(labs), join_dots(labs + [rec_name])) if labs else rec_name
+                        vc.ensure_kf("pointer.name", out.result[0] == exp, "KF-C25-3", And(len_(rec_name) == 0, len(labs) > 0))
+                        vc.ensure("pointer.length", out.result[1] == pos + 2 - off)
+        else:
+            vc.ensure("truncated_or_bad.parse_error", raised_is(out, SE()))
+            vc.ensure("truncated_or_bad.no_recursion", len(rec_calls) == 0)
+    if out.ok:
+        found, val = dict_lookup(vc, cache, off)
+        vc.ensure("memo.stored", found is True and not isnone(val) and vc.eq(val, out.result))
+        if shape == "other_entry":
+            f2, v2 = dict_lookup(vc, cache, k0)
+            vc.ensure("memo.frame", f2 is True and isnone(v2))
